@@ -167,7 +167,7 @@ fn build(c: &Choices) -> Decl {
         }
         Inner::F32 | Inner::F64 => {
             if c.san[0].index(3) == 0 {
-                d.sans = vec![SanSpec::With(FnRef::new(["s_clamp", "s_nan0", "s_neg", "s_add1", "s_abs"][c.san[1].index(5)], form(0)))];
+                d.sans = vec![SanSpec::With(FnRef::new(["s_clamp", "s_nan0", "s_neg", "s_add1", "s_abs", "s_recip", "s_quad", "s_big2inf"][c.san[1].index(8)], form(0)))];
             }
         }
         Inner::VecI32 => {
